@@ -28,6 +28,14 @@ func gen(c *hmain.Ctx) {
 		{Stream: "capacity-1", Opts: pipedrv.FamCap1, N: 15},
 		{Stream: "recycle", Opts: pipedrv.FamRecycle, N: 20},
 		{Stream: "split-fan", Opts: pipedrv.FamSplitFan, N: 15},
+		// families first built for C01 / C02 / C04 (a leak or a double hand-out can hide behind each of them too)
+		{Stream: "commit-race", Opts: pipedrv.FamCommitRace, N: 4},
+		{Stream: "hold-slow", Opts: pipedrv.FamHoldSlow, N: 6},
+		{Stream: "slow-flush", Opts: pipedrv.FamSlowFlush, N: 6},
+		{Stream: "maintenance", Opts: pipedrv.FamMaint, N: 4},
+		{Stream: "retry-backoff", Opts: pipedrv.FamRetryBackoff, N: 4},
+		{Stream: "retry-stop", Opts: pipedrv.FamRetryStop, N: 6},
+		{Stream: "deadqueue", Opts: pipedrv.FamDeadQStop, N: 6},
 	})
 }
 
